@@ -43,7 +43,7 @@ def confirm(prop, root="/tmp/seed", offset=0):
             shutil.copy(diff, os.path.join(dst, "patch.diff"))
             shutil.copy(demo, os.path.join(dst, "zz_demo_test.go"))
             notes = open(os.path.join(src, "notes.md")).read() if os.path.exists(os.path.join(src, "notes.md")) else ""
-            meta = {"id": "%s-%d" % (prop, n + offset), "breaks": [prop], "round": (3 if "seed3" in root else 2) if offset else 1, "source": "independent sub-agent given only the property text",
+            meta = {"id": "%s-%d" % (prop, n + offset), "breaks": [prop], "round": (int(root.rstrip("/")[-1]) if root.rstrip("/")[-1].isdigit() else 2) if offset else 1, "source": "independent sub-agent given only the property text",
                     "needs": "see notes.md", "confirmed": {"against": sh("git -C /repo rev-parse --short HEAD")[1].strip(),
                     "pristine_demo_passes": True, "builds": True, "baseline_30_tests_pass": True, "mutated_demo_fails": True,
                     "demo_failure_tail": out2[-600:]},
